@@ -65,7 +65,7 @@ CATALOGUE = {
 }
 
 
-def pick_problem(rng, random_frac=0.35, positive=None, min_p=1, tier="quick", names=None):
+def pick_problem(rng, random_frac=0.35, positive=None, min_p=1, tier="quick", only=None):
     """Return (name, model, theta, x0, t0, tmax, box, positive)."""
     for _ in range(200):
         t0 = rng.choice([0.0, 0.0, 0.0, 1.0, 0.5, 0.25, 2.75])
@@ -91,7 +91,7 @@ def pick_problem(rng, random_frac=0.35, positive=None, min_p=1, tier="quick", na
             if chk is None or chk.min() < 0.0:
                 continue
         else:
-            name = rng.choice(sorted(names or CATALOGUE))
+            name = rng.choice(sorted(only or CATALOGUE))
             c = CATALOGUE[name]
             if positive and not c["positive"]:
                 continue
